@@ -8,6 +8,7 @@ checks = sys.argv[2:]
 tier = os.environ.get('SEED_TIER', 'quick')
 def sh(cmd, **kw):
     return subprocess.run(cmd, shell=True, capture_output=True, text=True, **kw)
+RESULTS = {}
 assert sh('git -C /repo status --porcelain').stdout.strip() == '', '/repo not clean'
 r = sh(f'git -C /repo apply {d}/patch.diff')
 if r.returncode:
@@ -22,7 +23,17 @@ try:
         mons = sorted({l.split('monitor=')[1].split(' mechanism')[0] for l in out.splitlines() if 'monitor=' in l})
         verdict = [l for l in out.splitlines() if l.startswith(('HELD', 'INCONCLUSIVE', 'HARNESS'))]
         print(f'{c}: exit={r.returncode} violations={out.count("VIOLATION property=")} wall={time.time()-t0:.0f}s monitors={mons[:4]} {verdict[:1]}')
+        RESULTS[c] = dict(tier=tier, exit=r.returncode, violations=out.count('VIOLATION property='), monitors=mons[:6], caught=r.returncode == 1)
 finally:
     sh('git -C /repo checkout -- .')
-dm = sh(f'NUTILS_SRC=/repo/src OMP_NUM_THREADS=1 timeout 600 /venv/bin/python {d}/demo.py')
-print(f'demo without change: exit={dm.returncode}')
+try:
+    ev = json.load(open(d + '/eval.json'))
+except Exception:
+    ev = {}
+ev.setdefault('repo_head', sh('git -C /repo log --format=%h -1').stdout.strip())
+ev['demo_with_change_exit'] = dm.returncode
+ev.setdefault('checks', {}).update(RESULTS)
+dm2 = sh(f'NUTILS_SRC=/repo/src OMP_NUM_THREADS=1 timeout 600 /venv/bin/python {d}/demo.py')
+print(f'demo without change: exit={dm2.returncode}')
+ev['demo_without_change_exit'] = dm2.returncode
+json.dump(ev, open(d + '/eval.json', 'w'), indent=1)
